@@ -22,7 +22,7 @@ def run_ds(prop, name, tier, seed, plans, rule, defines=(), min_schedules=50, ts
         args = ["--seed", str(seed * 1000003 + i)] + [str(x) for x in p["args"]]
         t0 = time.time()
         out = harness.run_parallel(exe, args, p["total"], nproc=p.get("nproc", 16), timeout=p.get("timeout", 900),
-                                   tsan_log_dir=logdir)
+                                   chunk=p.get("chunk"), tsan_log_dir=logdir)
         dt = time.time() - t0
         label = p.get("label", "%s[%d]" % (p["flavour"], i))
         st = dict(out.stats)
